@@ -17,7 +17,8 @@ pub fn filler(len: usize, tag: u64, mode: u8) -> Vec<u8> {
         x ^= x << 13;
         x ^= x >> 7;
         x ^= x << 17;
-        let base = if i < 8 { t[i] | 0x10 } else { ((x >> 24) as u8) | 0x10 };
+        // first 16 bytes: the tag, one nibble per byte (0x10..0x1f): unique per sample, never zero
+        let base = if i < 16 { 0x10 | ((t[i / 2] >> (4 * (1 - i % 2))) & 0x0f) } else { ((x >> 24) as u8) | 0x10 };
         let b = match mode {
             0 => base,
             1 => {
@@ -37,7 +38,7 @@ pub fn filler(len: usize, tag: u64, mode: u8) -> Vec<u8> {
                 }
             }
             _ => {
-                if i < 8 {
+                if i < 16 {
                     base
                 } else {
                     (x >> 33) as u8 & 3
